@@ -127,6 +127,12 @@ def random_table(rs, ncol, pattern, nrow=None):
         for j in range(1, ncol):
             z[:, j] = z[:, 0] * (-1 if j % 2 else 1) + 0.05 * z[:, j]
         z[0, :] = 3.0
+    elif pattern == 'clayton-strong':      # strong lower-tail dependence (an exchangeable Clayton copula, theta 7..11, by Marshall-Olkin)
+        from scipy import stats
+        th = rs.uniform(7.0, 11.0)
+        frailty = rs.gamma(1.0 / th, 1.0, size=n)
+        u = (1.0 + rs.exponential(size=(n, ncol)) / frailty[:, None]) ** (-1.0 / th)
+        z = stats.norm.ppf(np.clip(u, 1e-12, 1 - 1e-12))
     elif pattern == 'exact-monotone':      # one column is an increasing function of another (|Kendall tau| exactly 1), the rest hang on loosely
         for j in range(2, ncol):
             z[:, j] = 0.5 * z[:, 0] + 0.8 * z[:, j]
